@@ -634,6 +634,52 @@ def corpus_cases():
 
 # ------------------------------------------------------------------------------------------ entry
 
+def language_mode_sweep(ctx):
+    """The scalar typedefs of include/a/a.h must denote the same machine types (size, alignment, signedness) in every language
+    mode a caller may compile the headers in, because src/lib.rs has ONE declaration for each (seeded change C20-18: the
+    pre-C99 fallback of A_BOOL).  gcc -std=gnu89 / c99 / c2x and g++ -std=c++11 against the -std=c11 build the layout model
+    is generated from; compiler-observed, host only."""
+    a_h = (vlib.REPO / "include" / "a" / "a.h").read_text()
+    pairs = sorted(set((n, m) for m, n in re.findall(r"typedef\s+(A_[A-Z0-9_]+)\s+(a_[a-z0-9_]+)\s*;", a_h) if n != "a_void"))
+    names = [n for n, _ in pairs]
+    if not names:
+        ctx.tie_broken("language-mode sweep: no scalar typedefs found in include/a/a.h")
+        return
+    # a typedef that a language mode does not provide at all (a_llong before C99) is skipped there: its macro is undefined
+    body = "".join('#if defined(%s)\n    printf("%s %%u %%u %%d\\n", (unsigned)sizeof(%s), (unsigned)__alignof__(%s), (int)((%s)-1 < (%s)0));\n#endif\n'
+                   % (m, n, n, n, n, n) for n, m in pairs)
+    text = '#include "a/a.h"\n#include <stdio.h>\nint main(void)\n{\n' + body + "    return 0;\n}\n"
+    cfg = ctx.cfg_header(1, 8)
+    res = {}
+    for comp, std, ext in (("gcc", "c11", "c"), ("gcc", "gnu89", "c"), ("gcc", "c99", "c"), ("gcc", "c2x", "c"), ("g++", "c++11", "cc")):
+        src = ctx.build / ("lang_%s.%s" % (std.replace("+", "p"), ext))
+        src.write_text(text)
+        exe = ctx.build / ("lang_%s" % std.replace("+", "p"))
+        rc, out = vlib.sh([comp, "-std=" + std, "-w", "-fpermissive" if comp == "g++" else "-w", "-I", str(vlib.REPO / "include"), "-DA_EXPORTS",
+                           '-DA_HAVE_H="%s"' % cfg, str(src), "-o", str(exe)], timeout=120)
+        if rc != 0:
+            ctx.tie_broken("language-mode sweep: the headers do not compile with %s -std=%s: %s" % (comp, std, " ".join(out.split())[-300:]))
+            continue
+        rc, out = vlib.sh([str(exe)], timeout=60)
+        res[std] = dict((l.split()[0], tuple(l.split()[1:])) for l in out.splitlines() if l.strip())
+    ref = res.get("c11", {})
+    n = 0
+    for std, tab in sorted(res.items()):
+        for name in names:
+            n += 1
+            if std != "c11" and name in ref and name in tab and tab[name] != ref[name]:
+                ctx.report("a.h/%s/language-mode" % name,
+                           "typedef %s is (size, alignment, signed) = %s when the headers are compiled with -std=%s but %s with -std=c11, "
+                           "the configuration src/lib.rs mirrors: a foreign function or structure declared with it has a different "
+                           "machine type for such a caller" % (name, tab.get(name), std, ref[name]),
+                           {"typedef": name, "language_mode": std, "observed": tab.get(name), "reference_c11": ref[name],
+                            "how": "gcc -std=%s on a program printing sizeof / __alignof__ / signedness of the typedefs of a/a.h" % std},
+                           found_input=True)
+    ctx.count(evaluations=n)
+    ctx.cov["language_modes"] = {"modes": sorted(res), "typedefs": len(names)}
+    ctx.log("language-mode sweep: %d scalar typedefs x %d modes" % (len(names), len(res)))
+
+
 def run(ctx):
     if not ctx.quick:
         # thorough: rebuild this property's own files from clean
@@ -641,6 +687,7 @@ def run(ctx):
         ctx.coq_build(["Properties_C20.v"], force=tuple(deps))
     ok = ctx.prove()
     stats = run_real(ctx, ok) or {"lines": 0}
+    language_mode_sweep(ctx)
 
     t0 = time.time()
     cc = corpus_cases()
